@@ -13,7 +13,9 @@ CHECK = {
              "exact integral) over energies x steps in (0,range] (down to range*2^-53 and the smallest denormal) x "
              "linear_loss_limit incl. 0 and 1e-300 x a 4-letter alphabet of (min_range, max_step_over_range, "
              "min_eprime_over_e) x {electron in every material, positron with the tables rotated by one "
-             "material}; MscStepToGeo/MscStepFromGeo with the real UrbanMscHelper over energies x mfp tables "
+             "material; each particle has a second, cross-section-only process (values 1e250) before (e-) / "
+             "after (e+) the table process so that eloss_ppid is 1 / 0; three track slots, slots 0-1 poisoned, "
+             "all views on slot 2}; MscStepToGeo/MscStepFromGeo with the real UrbanMscHelper over energies x mfp tables "
              "(a different scaled-xs table per material and particle) x true-path x geo-path lattices: "
              "msc_mfp against E^2/table, MscStepFromGeo against the documented inverse formulas in long "
              "double, the round trip true->geo->true and monotonicity in the geometrical step. Every table sits between sentinels in the shared reals pool and every object is "
